@@ -13,7 +13,7 @@ import sys
 sys.path.insert(0, os.path.dirname(os.path.abspath(__file__)))
 import hg
 
-KINDS = {"fn", "rec", "drec", "rrec", "err", "kerr", "ret", "sact", "sop"}
+KINDS = {"fn", "rec", "drec", "rrec", "err", "kerr", "ret", "sact", "sop", "recbuf"}
 
 
 def canon(events):
@@ -39,7 +39,18 @@ def program_pool(rng):
     p2 = ["scn pc", "opt start=1 end=8", "graph root", "n 1 src script=" + s2, "n 2 fb init=1", "n 3 sumu in=1,2", "n 4 delay d=2 in=3",
           "n 5 rec in=4", "n 6 rec in=2", "n 7 gprobe key=ka in=1", "n 8 rec in=7", "n 9 gset key=kc in=3", "n 10 gprobe key=kc in=4",
           "n 11 rec in=10", "bind 2 3", "endgraph"]
-    return ["\n".join(p) for p in (p0, p1, p2)]
+    # "type neighbours": the same node shapes over types that differ in one parameter only (window warm-up or period,
+    # list size) - process-wide type interning must keep them apart whichever graph was realised first
+    wa, wb = rng.choice([((3, 3), (3, 1)), ((3, 1), (3, 3)), ((3, 2), (3, 3)), ((2, 1), (2, 2)), ((2, 2), (3, 2)), ((3, 1), (2, 1))])
+    s3 = ";".join("%d:%d" % (t, rng.choice([1, 2, 3, 5])) for t in sorted(rng.sample(range(1, 7), 5)))
+    p3 = ["scn pd", "opt start=1 end=8", "graph root", "n 1 src script=" + s3, "n 2 wsum p=%d m=%d in=1" % wa, "n 3 rec in=2",
+          "n 4 count in=1", "n 5 lsum in=1,4", "n 6 rec in=5", "n 7 grec key=r in=2", "endgraph"]
+    p4 = ["scn pe", "opt start=1 end=8", "graph root", "n 1 src script=" + s3, "n 2 wsum p=%d m=%d in=1" % wb, "n 3 rec in=2",
+          "n 4 count in=1", "n 5 lsum3 in=1,4,2", "n 6 rec in=5", "n 7 grec key=r in=5", "endgraph"]
+    # recorders whose first tick comes early / late (what a later run would find in a buffer left behind by an earlier one)
+    s5 = ";".join("%d:%d" % (t, rng.choice([1, 2, 3])) for t in sorted(rng.sample(range(rng.choice([1, 3, 5]), 8), 2)))
+    p5 = ["scn pf", "opt start=1 end=9", "graph root", "n 1 src script=" + s5, "n 2 acc in=1", "n 3 grec key=r in=2", "n 4 rec in=2", "endgraph"]
+    return ["\n".join(p) for p in (p0, p1, p2, p3, p4, p5)]
 
 
 def iso_text(name, progs, tokens):
@@ -94,7 +105,7 @@ def main():
     pools = [program_pool(rng) for _ in range(4)]
     for k, h in enumerate(hists):
         pool = pools[k % len(pools)]
-        progs = pool[:2] if k % 3 else [pool[2], pool[0]]
+        progs = (pool[:2], [pool[2], pool[0]], [pool[3], pool[4]], [pool[4], pool[3]], [pool[3], pool[1]])[k % 5]
         tokens = ["%s%d" % (op, arg) if op != "F" else "F" for op, arg in h]
         scns.append(iso_text("h%d" % k, progs, tokens))
         metas.append(progs)
@@ -106,11 +117,22 @@ def main():
         tokens = ["B%d" % i for i in range(nb)] + ["Y%d" % rng.randrange(nb) for _ in range(rng.randint(2, 8))] + ["F"]
         scns.append(iso_text("free%d" % k, progs, tokens))
         metas.append(progs)
+    # runs that follow one another inside ONE GlobalContext (the finished run's global state is copied back and seeds the
+    # next build): a recorder starts from an empty buffer whatever an earlier run recorded under the same key
+    for k in range(30 if quick else 300):
+        pool = pools[k % len(pools)]
+        nruns = rng.randint(2, 4)
+        progs = [rng.choice(pool[3:6]) for _ in range(nruns)]
+        tokens = ["G"]
+        for i in range(nruns):
+            tokens += ["B%d" % i, "X%d" % i, "F", "W%d" % i]
+        scns.append(iso_text("ctx%d" % k, progs, tokens))
+        metas.append(progs)
     # first use: many executors created at the same instant in a fresh process (lazily initialised process-wide state)
     first_use = []
     for k in range(40 if quick else 400):
         pool = pools[k % len(pools)]
-        progs = [pool[k % 3]]
+        progs = [pool[k % 6]]
         first_use.append(len(scns))
         scns.append(iso_text("first%d" % k, progs, ["B0"] + ["Y0"] * 8 + ["F"]))
         metas.append(progs)
